@@ -32,6 +32,7 @@ RULE = (
     "periodic cell; 30% in other length units (x 2^-40..2^23, exact), 40% with the estimator fitted again after a fit on other data. The last PERM_SETS case indices enumerate ALL n! input orders of one n-point set (n = 5 quick / 7 "
     "thorough). non-trivial = more than one cluster and a point whose path has >= 2 steps; distinct by data hash."
 )
+RULE = RULE + " " + 'Weights as ranks in another dtype, incl. int64 + 2^60 and uint64 + 2^63.'
 ASSUMPTIONS = [
     "successor sets: candidates whose squared distance is within 1e-12 relative of the minimum are all admissible (ties)",
     "relations (permutation, monotone re-weighting, image shifts) judged on tie-free configurations only",
